@@ -408,7 +408,8 @@ class MultiIndexLocation(IndexLocation):
 
     def detachedCopy(self) -> "MultiIndexLocation":
         loc = MultiIndexLocation(None)
-        loc.extend(self._locations)
+        # the individual locations belong to the grid as well: detach each of them too
+        loc.extend([location.detachedCopy() for location in self._locations])
         return loc
 
     def associate(self, grid: "Grid"):
